@@ -31,6 +31,7 @@ import (
 	"sort"
 	"strings"
 	"testing"
+	"time"
 
 	bnet "github.com/bio-routing/bio-rd/net"
 	"github.com/bio-routing/bio-rd/protocols/bgp/types"
@@ -648,6 +649,7 @@ type zvC16Ctx struct {
 	nontriv  int
 	maxBatch uint64
 	maxOne   uint64
+	wall     map[string]time.Duration // informational only (where the time goes), never an oracle
 }
 
 func (x *zvC16Ctx) flush() {
@@ -662,6 +664,9 @@ func (x *zvC16Ctx) flush() {
 	for _, k := range ks {
 		x.r.Count(k, x.cnt[k])
 		delete(x.cnt, k)
+	}
+	for k, d := range x.wall {
+		x.r.Extra("wall_s_max_shard_"+k, d.Seconds())
 	}
 	x.r.Extra("max_alloc_bytes_16_decodes", float64(x.maxBatch))
 	x.r.Extra("max_alloc_bytes_remeasured_single_decode", float64(x.maxOne))
@@ -762,6 +767,8 @@ func (x *zvC16Ctx) input(seed, kind, detail string, in []byte) {
 	if len(in) > 4096 {
 		x.r.Fatalf("harness produced an input of %d bytes", len(in))
 	}
+	t0 := time.Now()
+	defer func() { x.wall[kind] += time.Since(t0) }()
 	runtime.ReadMemStats(&x.ms)
 	a0 := x.ms.TotalAlloc
 	nOK := 0
@@ -807,8 +814,11 @@ func TestVerifC16(t *testing.T) {
 		"trailing bytes up to 4096; thorough: every pair of fields x reduced boundary set^2 x 2 paddings} + every body of <= 2 bytes (thorough: 3 bytes for OPEN/UPDATE) after a header of every type; " +
 		"each input x all 16 DecodeOptions; evaluation = one Decode call; non-trivial = the input has a valid header, so the body decoder runs")
 	r.Require("decode_ok", "decode_err", "decode_ok_open", "decode_ok_update", "decode_ok_notification", "decode_ok_keepalive", "mut_byte", "mut_trunc", "mut_field", "mut_grow", "mut_tiny", "ok_under_some_options_only")
-	x := &zvC16Ctx{r: r, opts: zvC16Opts(), cnt: map[string]int{}, outcomes: map[string]struct{}{}}
+	x := &zvC16Ctx{r: r, opts: zvC16Opts(), cnt: map[string]int{}, outcomes: map[string]struct{}{}, wall: map[string]time.Duration{}}
 	defer x.flush()
+	// The live heap is tiny and the decoder produces ~1.5 KiB of garbage per call;
+	// collect less often (does not influence TotalAlloc).
+	defer debug.SetGCPercent(debug.SetGCPercent(1000))
 
 	if r.IsReplay() {
 		var c zvC16Case
